@@ -26,6 +26,7 @@ func (r satResult) String() string { return [...]string{"unsat", "sat", "unknown
 
 type SolverStats struct {
 	Queries, Sat, Unsat, Unknown int
+	Fallback                     int
 	Seconds                      float64
 }
 
@@ -41,12 +42,124 @@ type Solver struct {
 	log     io.Writer
 	nvars   int
 	ndefs   int
+	inScope bool
+	scopeDefs []*Term
+	lastLits  []*Term
+	lastByFallback bool
+}
+
+// oneShot asks cvc5 and then z3-new about lits in a fresh process, sending
+// only the definitions the literals depend on. With want != nil and a sat
+// answer it also returns model values.
+func (s *Solver) oneShot(lits []*Term, want []*Term) (satResult, []uint64) {
+	var sb strings.Builder
+	sb.WriteString("(set-logic ALL)\n(set-option :produce-models true)\n")
+	for _, uf := range []string{"uf_log", "uf_log2", "uf_log10", "uf_exp", "uf_sin", "uf_cos", "uf_tan"} {
+		sb.WriteString("(declare-fun " + uf + " ((_ FloatingPoint 11 53)) (_ FloatingPoint 11 53))\n")
+	}
+	for _, uf := range []string{"uf_mod", "uf_pow", "uf_max", "uf_min"} {
+		sb.WriteString("(declare-fun " + uf + " ((_ FloatingPoint 11 53) (_ FloatingPoint 11 53)) (_ FloatingPoint 11 53))\n")
+	}
+	seen := map[*Term]bool{}
+	var visit func(t *Term)
+	visit = func(t *Term) {
+		if seen[t] || t.op == "const" {
+			return
+		}
+		seen[t] = true
+		for _, a := range t.args {
+			visit(a)
+		}
+		if t.op == "var" {
+			sb.WriteString(fmt.Sprintf("(declare-const %s %s)\n", t.text, t.sort.smt()))
+		} else {
+			sb.WriteString(fmt.Sprintf("(define-fun %s () %s %s)\n", t.name(), t.sort.smt(), t.smtBody()))
+		}
+	}
+	for _, l := range lits {
+		visit(l)
+	}
+	for _, w := range want {
+		visit(w)
+	}
+	for _, l := range lits {
+		sb.WriteString("(assert " + l.name() + ")\n")
+	}
+	sb.WriteString("(check-sat)\n")
+	for _, w := range want {
+		q := w.name()
+		if w.sort.k == sFP64 || w.sort.k == sFP32 {
+			q = "(fp.to_ieee_bv " + w.name() + ")"
+		}
+		sb.WriteString("(get-value (" + q + "))\n")
+	}
+	for _, cmdline := range [][]string{{"cvc5", "--tlimit=60000", "--fp-exp"}, {"z3-new", "-in", "-T:60"}} {
+		if cmdline[0] == "cvc5" {
+			cmdline = append(cmdline, "--lang=smt2", "-")
+		}
+		cmd := exec.Command(cmdline[0], cmdline[1:]...)
+		cmd.Stdin = strings.NewReader(sb.String())
+		out, _ := cmd.Output()
+		lines := strings.Split(strings.TrimSpace(string(out)), "\n")
+		if len(lines) == 0 {
+			continue
+		}
+		bad := false
+		for _, l := range lines {
+			if strings.HasPrefix(l, "(error") {
+				bad = true
+			}
+		}
+		if bad {
+			continue
+		}
+		switch strings.TrimSpace(lines[0]) {
+		case "unsat":
+			return rUnsat, nil
+		case "sat":
+			if want == nil {
+				return rSat, nil
+			}
+			// values: one s-expression per want (may span lines); join and split on "((" 
+			rest := strings.Join(lines[1:], " ")
+			parts := strings.Split(rest, "((")
+			var vals []uint64
+			for _, p := range parts[1:] {
+				vals = append(vals, parseModelValue("(("+p, bvSort(64)))
+			}
+			if len(vals) == len(want) {
+				return rSat, vals
+			}
+		}
+	}
+	return rUnknown, nil
+}
+
+// BeginPath opens a solver scope: everything defined until EndPath is
+// forgotten afterwards, so that one path's (possibly expensive) definitions
+// never burden the queries of later paths.
+func (s *Solver) BeginPath() {
+	s.send("(push 1)")
+	s.inScope = true
+	s.scopeDefs = s.scopeDefs[:0]
+}
+
+func (s *Solver) EndPath() {
+	if !s.inScope {
+		return
+	}
+	s.send("(pop 1)")
+	for _, t := range s.scopeDefs {
+		t.sent = false
+	}
+	s.scopeDefs = s.scopeDefs[:0]
+	s.inScope = false
 }
 
 // MaybeRestart starts a fresh solver process when too many definitions
 // have accumulated (called between paths).
 func (s *Solver) MaybeRestart() {
-	if s.ndefs > 20000 {
+	if s.ndefs > 400000 {
 		st := s.stats
 		s.Close()
 		s.start()
@@ -81,6 +194,8 @@ func (s *Solver) start() {
 	s.in = in
 	s.out = bufio.NewReaderSize(out, 1<<16)
 	s.declared = map[int]bool{}
+	s.inScope = false
+	s.scopeDefs = nil
 	// reset sent flags: all terms must be re-sent to a fresh process
 	for _, t := range s.ts.byKey {
 		if t.op != "const" {
@@ -153,6 +268,9 @@ func (s *Solver) define(t *Term) {
 			}
 			s.ndefs++
 		}
+		if s.inScope {
+			s.scopeDefs = append(s.scopeDefs, tt)
+		}
 		tt.sent = true
 		stack = stack[:len(stack)-1]
 	}
@@ -209,6 +327,16 @@ func (s *Solver) Check(lits []*Term) satResult {
 		}
 		break
 	}
+	s.lastLits = append(s.lastLits[:0], lits...)
+	s.lastByFallback = false
+	if res == rUnknown {
+		// second opinion from other back ends (one-shot, cone of influence only)
+		if r2, _ := s.oneShot(lits, nil); r2 != rUnknown {
+			res = r2
+			s.lastByFallback = true
+			s.stats.Fallback++
+		}
+	}
 	s.stats.Queries++
 	s.stats.Seconds += time.Since(t0).Seconds()
 	switch res {
@@ -225,6 +353,29 @@ func (s *Solver) Check(lits []*Term) satResult {
 // Values returns model values (after a sat Check) for the given terms as
 // uint64 bit patterns (bool: 0/1; FP: IEEE bits).
 func (s *Solver) Values(terms []*Term) []uint64 {
+	if s.lastByFallback {
+		var want []*Term
+		for _, t := range terms {
+			if !t.isC {
+				want = append(want, t)
+			}
+		}
+		r, vals := s.oneShot(s.lastLits, want)
+		if r != rSat {
+			panic(engineErr{"fallback solver could not produce a model"})
+		}
+		res := make([]uint64, len(terms))
+		k := 0
+		for i, t := range terms {
+			if t.isC {
+				res[i] = t.cu
+			} else {
+				res[i] = vals[k]
+				k++
+			}
+		}
+		return res
+	}
 	res := make([]uint64, len(terms))
 	for i, t := range terms {
 		if t.isC {
